@@ -135,6 +135,18 @@ def hexDigitsAux : Nat → Nat → List Nat → List Nat
 
 def hexDigits (n : Nat) : List Nat := hexDigitsAux (n + 1) n []
 
+/-- binary digits of `n`, most significant first (`0 ↦ ['0']`), as `bin(n)[2:]` -/
+def binDigitsAux : Nat → Nat → List Char → List Char
+  | 0, _, acc => acc
+  | fuel + 1, n, acc =>
+    let c := if n % 2 = 1 then '1' else '0'
+    if n < 2 then c :: acc else binDigitsAux fuel (n / 2) (c :: acc)
+
+def binDigits (n : Nat) : List Char := binDigitsAux (n + 1) n []
+
+/-- `bin(x)[10:]` for `x ≥ 0`: the binary digits of `x` behind its eight leading ones (the idiom of a 0x80 sentinel octet) -/
+def binAfter10 (x : Int) : List Char := (binDigits x.toNat).drop 8
+
 def pairUp : List Nat → List Int
   | a :: b :: r => Int.ofNat (16 * a + b) :: pairUp r
   | _ => []
